@@ -19,17 +19,17 @@ K = 1e4
 
 
 @st.composite
-def _case3(draw):
-    r = None if draw(st.integers(0, 9)) == 0 else draw(zoo.f(-3, 2))
-    return {"cvx": draw(zoo.convex3d(max_n=24)), "place": draw(zoo.placement(max_offset=5.0, scale_decades=1.0)), "logr": r,
+def _case3(draw, decades=1.0):
+    r = None if draw(st.integers(0, 9)) == 0 else draw(st.sampled_from([-3.0, -2.5, -2.0, -1.5, -1.0, -0.5, 0.0, 0.5, 1.0, 1.5, 2.0])) + draw(zoo.f(-0.25, 0.25))
+    return {"cvx": draw(zoo.convex3d(max_n=24)), "place": draw(zoo.placement(max_offset=5.0, scale_decades=decades)), "logr": r,
             "perm": draw(zoo.noise(64))}
 
 
 @st.composite
-def _case2(draw):
-    r = None if draw(st.integers(0, 9)) == 0 else draw(zoo.f(-3, 2))
+def _case2(draw, decades=0.0):
+    r = None if draw(st.integers(0, 9)) == 0 else draw(st.sampled_from([-3.0, -2.5, -2.0, -1.5, -1.0, -0.5, 0.0, 0.5, 1.0, 1.5, 2.0])) + draw(zoo.f(-0.25, 0.25))
     return {"poly": draw(gp.simple_polygon(max_n=20, kinds=("convex",))), "emb": draw(gp.embedding()), "logr": r,
-            "perm": draw(zoo.noise(32))}
+            "perm": draw(zoo.noise(32)), "logs": draw(st.sampled_from([k / 2.0 for k in range(-int(2 * decades), 13)])) if decades else 0.0}
 
 
 def mean_curvature_oracle(V, facets, nrm):
@@ -110,10 +110,12 @@ def _poly3(case, rec):
 def _poly2(case, rec):
     xy = gp.build_polygon_xy(case["poly"])
     em = gp.embed(xy, case["emb"])
-    V, arg = em["verts"], em["normal_arg"]
+    sc = 10.0 ** case.get("logs", 0.0)
+    V, arg = em["verts"] * sc, em["normal_arg"]
+    Vccw = V.copy()
     V = V[perm_from_noise(case["perm"], len(V))]  # ConvexSpheropolygon accepts any vertex order
     nrm = em["nplus"]
-    o = geom.polygon_moments(em["verts"], nrm)
+    o = geom.polygon_moments(Vccw, nrm)
     A, Pm = o["area"], o["perimeter"]
     size = diameter(V)
     r = 0.0 if case["logr"] is None else float(10.0 ** case["logr"] * size)
@@ -151,6 +153,8 @@ def clauses():
                floors={"r>0": 0.6, "r=0": 0.03, "nontriangular": 0.25}),
         Clause("spheropolygon", _case2(), _poly2, quick=800, thorough=20000, rule="ConvexSpheropolygon",
                floors={"r>0": 0.6, "r=0": 0.03, "tilted": 0.3}),
+        Clause("spheropolyhedron_extreme_scale", _case3(8.0), _poly3, quick=300, thorough=6000, rule="same with uniform scale 10^U(-8,8)", floors={}),
+        Clause("spheropolygon_extreme_scale", _case2(8.0), _poly2, quick=400, thorough=8000, rule="same with uniform scale 10^U(-8,6)", floors={}),
     ]
 
 
